@@ -34,7 +34,7 @@ def mnemonic_classes(facts):
 
 
 def criteria_of_path(path):
-    """(key, [(factory, args)]) for the criteria rule matched on this path, or None."""
+    """(key, [predicate values]) for the criteria rule matched on this path, or None."""
     key = None
     table = None
     for ev in path.events:
@@ -46,15 +46,9 @@ def criteria_of_path(path):
         return None
     for k, v in table[1]:
         if is_const(k) and k[1] == key:
-            preds = []
-            if v[0] != 'list':
+            if v[0] not in ('list', 'tuple'):
                 raise AnalysisError('criteria[{!r}] is not a literal list'.format(key))
-            for p in v[1]:
-                if p[0] == 'callv' and p[1][0] == 'closure':
-                    preds.append((p[1][1], [a[1] if is_const(a) else a for a in p[2]]))
-                else:
-                    raise AnalysisError('criteria[{!r}] contains a predicate that is not a factory call: {}'.format(key, show(p)))
-            return key, preds
+            return key, list(v[1])
     return None
 
 
@@ -68,6 +62,7 @@ class PassAnalysis:
         self.sizes = Sizes(facts, incoming)
         self.result = returned_list(self.fn)
         _, self.loop, self.paths = loop_paths(facts, self.fn)
+        self.walker = self.paths[0].walker if self.paths else None
         self.item = ('item', self.loop.target.id) if isinstance(self.loop.target, ast.Name) else None
         self.pos_var = self.find_position_var()
         self.mn_classes = mnemonic_classes(facts)
@@ -95,6 +90,14 @@ class PassAnalysis:
                             self.paths.append(p)
             self.rows = keep
 
+    def lifted(self, key, preds):
+        """[(formula, factory name, function node)] of the predicates of a criteria rule (cached per key)."""
+        cache = self.__dict__.setdefault('_lifted', {})
+        if key not in cache:
+            from .predlift import lift_predicate
+            cache[key] = [lift_predicate(self.walker, p, self.facts) for p in preds]
+        return cache[key]
+
     def _flatten(self, syms):
         out = []
         todo = list(syms)
@@ -115,7 +118,11 @@ class PassAnalysis:
                     and isinstance(st.value, ast.Constant) and st.value.value == 0 and not isinstance(st.value.value, bool):
                 zero.add(st.targets[0].id)
         adv = {}
-        for n in ast.walk(self.loop):
+        from .pathwalk import local_closures
+        closures = local_closures(self.fn)
+        called = {n.func.id for n in ast.walk(self.loop) if isinstance(n, ast.Call) and isinstance(n.func, ast.Name) and n.func.id in closures}
+        region = [self.loop] + [closures[c] for c in called]
+        for n in [x for r in region for x in ast.walk(r)]:
             if isinstance(n, ast.AugAssign) and isinstance(n.op, ast.Add) and isinstance(n.target, ast.Name) and n.target.id in zero:
                 adv[n.target.id] = adv.get(n.target.id, 0) + (2 if 'size' in unparse(n.value) else 1)
         if not adv:
@@ -129,7 +136,8 @@ class PassAnalysis:
         crit = criteria_of_path(path)
         if crit is not None:
             key, preds = crit
-            names = [a[0] for f, a in preds if f == 'NameEquals']
+            names = [f[3][1] for f, _, _ in self.lifted(key, preds)
+                     if f[0] == 'cmp' and f[1] == '==' and f[2] == ('NAME',) and f[3][0] == 'const']
             if len(names) == 1:
                 nm = names[0]
                 st.fact(('attr', self.item, 'name'))['eq'] = C(nm)
